@@ -689,6 +689,16 @@ def run(out_dir: str) -> list[TranslationError]:
     errors += errs
     if text:
         write_if_changed(os.path.join(out_dir, "GenOpTable.v"), text)
+    # constructor signatures and __repr__ rules (property C15); its own fail-closed translator
+    try:
+        import translate_signatures
+
+        for e in translate_signatures.run(out_dir):
+            errors.append(e if isinstance(e, TranslationError) else TranslationError("signatures", str(e)))
+    except ImportError:
+        pass
+    except Exception as e:  # fail closed
+        errors.append(TranslationError("signatures", f"translator crashed: {type(e).__name__}: {e}"))
     return errors
 
 
